@@ -37,7 +37,7 @@ CHECKS = {
    "reference = each custom op instantiated alone (the configuration the repo's unit tests cover).",
    "bounded-exhaustive enumeration of operation combinations"),
  "C09": ("exploration", "3.C09",
-   "Every primitive operation x parameter alphabet x argument-type alphabet offered to the real builder; accepted nodes evaluated on an input alphabet: no panic, every node value has exactly the inferred type's layout, accepted nodes evaluate on at least one admissible input; thorough adds all two-operation compositions.",
+   "Every primitive operation x parameter alphabet x argument-type alphabet offered to the real builder; accepted nodes evaluated on an input alphabet: no panic, every node value has exactly the inferred type's layout, accepted nodes evaluate on at least one admissible input; graph shapes (every step of a chain as the output node, also as Call/Iterate bodies) through the library's own graph walk; thorough adds all two-operation compositions.",
    "type/parameter alphabets bounded (rank <= 3, dims <= 3).",
    "bounded-exhaustive enumeration of typed one- and two-operation programs"),
  "C10": ("exploration", "3.C10",
@@ -49,7 +49,7 @@ CHECKS = {
    "depth bound 4-5 quick / 6-7 thorough (time-capped, deepest complete level reported); built with the repository's `fuzzing` feature for tiny limits.",
    "explicit-state breadth-first search over API histories with a reference model and differential continuation"),
  "C12": ("fault_enumeration", "3.C12",
-   "Round trip of a corpus of contexts of every kind; exhaustive enumeration of corruptions of valid serializations (every prefix, byte deletion, byte substitution of the envelope; every structural mutation of the payload JSON tree): each must be an Err or a well-formed context, never a panic.",
+   "Round trip of a corpus of contexts of every kind (incl. every assignment of names from a 3-letter alphabet to two graphs and their nodes); exhaustive enumeration of corruptions of valid serializations (every prefix, byte deletion, byte substitution of the envelope; every structural mutation of the payload JSON tree): each must be an Err or a well-formed context, never a panic.",
    "mutation alphabet fixed; seed contexts chosen to contain every table.",
    "exhaustive single-fault enumeration over serialized text and payload trees"),
  "C13": ("exploration", "3.C13",
@@ -61,7 +61,7 @@ CHECKS = {
    "uniformity exhaustive for bit/u8; wider types by the exact share law on boundary values.",
    "exhaustive random-tape enumeration through the real sharing code"),
  "C15": ("model_checking", "3.C15",
-   "Exhaustive exploration of PRF/PRNG call histories across two evaluator instances (purity: every value equals a per-call fresh reference), validity of encodings for counters 0..4095, exact unbiasedness of bounded draws by enumerating all raw values through the real samplers (tape hook), replay of generators.",
+   "Exhaustive exploration of PRF/PRNG call histories across two evaluator instances (purity: every value equals a per-call fresh reference), validity of encodings for counters 0..4095, exact unbiasedness of bounded draws by enumerating all raw values through the real samplers (tape hook), also with a batch boundary of the byte stream inside the draw (split-tape hook), replay of generators.",
    "history depth 3-4; uniformity of PermutationFromPRF rests on the bounded-draw sampler.",
    "exhaustive call-history exploration plus exhaustive raw-randomness enumeration"),
  "C16": ("exploration", "3.C16",
@@ -81,7 +81,7 @@ CHECKS = {
    "tables <= 3 rows, key domain of 4 values.",
    "exhaustive table-pair enumeration against a reference model"),
  "C20": ("exploration", "3.C20",
-   "Every representable input of each documented domain (whole fixed-point grid) for each approximation x precisions/iterations x initial approximations, compared with f64 evaluation under the tolerance the source itself states; compiled versions on a sub-grid (regression bound).",
+   "Every representable input of each documented domain (whole fixed-point grid) for each approximation x precisions (coarse 2..7, 10, 15)/iterations x initial approximations, compared with f64 evaluation under the tolerance the source itself states; compiled versions on a sub-grid (regression bound).",
    "tolerances are the repository's own stated bounds; compiled-vs-plaintext bound is a frozen regression bound.",
    "exhaustive grid sweep"),
 }
@@ -95,7 +95,7 @@ def main():
             "guard": "cargo feature `verif` of ciphercore-base (off by default)",
             "enable": "the harness crate /verif/harness depends on ciphercore-base with features = [\"verif\", \"stderr-to-log\"]; C11 is additionally built with the repository's own `fuzzing` feature (tiny size limits) via the harness feature `limits`",
             "baseline_off_cmd": "cd /repo && cargo nextest run --workspace --no-fail-fast --offline",
-            "source_commits": ["7382bbb"],
+            "source_commits": ["7382bbb", "45c9bee"],
             "add_only": True,
         },
         "engines": [
